@@ -199,6 +199,19 @@ def check(ctx):
             if cs and srcs == {BY} and any("reversed(" in v or "[::-1]" in v for v in vals) \
                     and all(("reversed(" in v or "[::-1]" in v) or v == norm(x["target"]) or " if " in v for v, x in zip(vals, [y for y in cs if y["value"] is not None])):
                 swapped = True
+            lazy = []
+            from ..forms import split_ifexp as _sx2
+            for x in cs:
+                if x["value"] is None:
+                    continue
+                for leaf, _f in _sx2(x["value"]):
+                    if isinstance(leaf, ast.Call) and isinstance(leaf.func, ast.Name) and leaf.func.id in ("reversed", "map", "iter", "zip", "filter"):
+                        lazy.append(leaf)
+            if swapped and lazy:
+                ctx.ob("SIB-15", fj, f"{norm(lazy[0])} handed on as a by-pair", lazy[0], False,
+                       f"the swapped pair is the iterator {norm(lazy[0])}: _split_join_by indexes a pair with x[0] / x[1], which an iterator "
+                       f"does not support -- every full_join with differently named keys raises TypeError",
+                       clause="key tuples incl. renamed (left,right) keys")
         okr = bool(c.args) and text(c.args[0]) == text(env["_A"])
         ctx.ob("SIB-15", fj, text(c), c, okr and swapped,
                "reverse join receives the by-tuples with the two names swapped" if (okr and swapped) else
@@ -214,6 +227,16 @@ def check(ctx):
            "right items still to be added are found by their synthetic id among the joined items" if ok else
            "unused right items are not determined by the synthetic id against the left-join result: right items that share a key "
            "with a used one are lost", clause="full_join contains every right item at least once")
+    # in the reverse part a key named differently on the two sides is renamed to the left-hand name
+    ren = [n for n in body_nodes(fj.node) if isinstance(n, ast.Assign) and isinstance(n.targets[0], ast.Subscript)
+           and isinstance(n.value, ast.Call) and isinstance(n.value.func, ast.Attribute) and n.value.func.attr == "pop"]
+    okren = bool(ren) and all(pmatch("_X[0]", n.targets[0].slice) is not None and n.value.args
+                              and pmatch("_X[1]", n.value.args[0], {"_X": pmatch("_X[0]", n.targets[0].slice)["_X"]}) is not None
+                              and text(n.targets[0].value) == text(n.value.func.value) for n in ren)
+    ctx.ob("SIB-15", fj, text(ren[0]) if ren else "x[item[0]] = x.pop(item[1]) for the reverse-joined items", ren[0] if ren else fj.node, okren,
+           "reverse-joined items carry the key under the left-hand name, like the forward-joined ones" if okren else
+           "the reverse part keeps the right-hand key name (or renames the wrong way): one key lives under two names in the result, and "
+           "the final sort/lookup by the left-hand name misses those items", clause="key tuples incl. renamed (left,right) keys")
     # the shortcut that skips the reverse part is taken only when no right item is left over
     from ..facts import facts_at as _fa
     B_ = text(env["_B"])
